@@ -5,7 +5,7 @@ import GlueVerif.Lemmas.C17Exact
 Property theorems only; helper lemmas live in `GlueVerif.Lemmas.C17*`. Every statement is about the
 executable definitions of `GlueVerif.Model.DataStruct` that the driver `Drivers/C17.lean` runs
 against `glue/core/data.py` on every check: `step` (one call of the mutation API, with the repairs
-F13/F16/F17/F18/F19 of `props.d/C17/fixes`), `obs` (what the harness reads off the real object),
+F13/F16–F22 of `props.d/C17/fixes`), `obs` (what the harness reads off the real object),
 `specInv` / `specStep` / `specTrace` (the predicates the driver evaluates on the *implementation's*
 observations), `classify` (which calls the theorems cover).
 -/
@@ -31,11 +31,17 @@ theorem find_spec (probe : List Label) (s : State) (l : Label) :
 
 /-- **One call preserves the invariant** — for every state and every call of the mutation API with
 arbitrary arguments (valid or invalid: wrong shapes, absent ids, non-permutations, duplicate labels,
-…) that lies inside the hypothesis `classify s op = ok`. Outside lie exactly the constructs listed
-in `Construct` (the first three are known findings F20–F22, witnessed below).
+…) that lies inside the hypothesis `classify s op = ok`. Since the repairs F20–F22 the hypothesis
+no longer excludes any known defect: removing a pixel / world component (refused), adding onto an id
+in use (array replaced and announced, other kinds refused) and `update_id` onto an id in use
+(refused) are all covered. Outside lie exactly the constructs listed in `Construct`: arguments that
+are not existing ComponentID objects (`unknownId`, a well-formedness condition of the model's fresh
+identities), 0-d arrays (`scalarShape`), and calls the model does not follow (`updateIdDependents`
+— C14's subject —, `updateNonMain`, `renameForeign`, `linkedInCollection`), none of which the
+harness executes.
 
-Full statement (false on the code as it is, see the witnesses):
-`∀ s op, Inv s → Inv (step s op).state`. -/
+Full statement (not provable for the model as it stands: an identifier `≥ next` collides with a
+later fresh one, and `Inv` does not cover 0-d datasets): `∀ s op, Inv s → Inv (step s op).state`. -/
 theorem step_inv_partial (s : State) (op : Op) (h : Inv s) (hc : classify s op = .ok) :
     Inv (step s op).state :=
   Lemmas.C17.step_inv h hc
@@ -54,6 +60,15 @@ example : allOk (init [1, 2, 1, 5])
      .updateFrom ⟨1, [(1, 30), (2, 31)], [2, 2], some 8⟩, .updateId 6 0, .reorder [0, 6],
      .remove 0, .updateComponents [(0, [2, 2], 1)]] = true := by decide
 
+/-- … and by the calls that used to be excluded (F20–F22): removing a pixel id, adding onto an id in
+use (an array, then a pixel id), `update_id` onto an id in use. -/
+example :
+    let ops : List Op := [.register, .addArray 1 [3] 10, .addArray 2 [3] 20, .remove 5, .addArrayAt 4 [3] 30,
+      .addArrayAt 5 [3] 40, .updateId 4 6, .updateId 4 5]
+    allOk (init [1, 2, 1, 5]) ops = true ∧ (run (init [1, 2, 1, 5]) ops).pix = [5] ∧
+    (run (init [1, 2, 1, 5]) ops).comps = [⟨5, .pixel 0, [], 0⟩, ⟨4, .main, [3], 30⟩, ⟨6, .main, [3], 20⟩] := by
+  decide
+
 
 /-- **Each call announces exactly what it changed** — for every state satisfying the invariant and
 every call inside the hypothesis, `specStep` holds on what the harness observes before and after:
@@ -69,8 +84,9 @@ every call inside the hypothesis, `specStep` holds on what the harness observes 
   `NumericalDataChanged`, which only the two value-updating calls send;
 * hub membership only changes through attach / register.
 
-Full statement (false on the code as it is, witnesses `silent_replace`, `update_id_merges`):
-`∀ s op, Inv s → specStep … = true`. -/
+Full statement: `∀ s op, Inv s → specStep … = true` (the remaining hypothesis is the model's scope,
+see `step_inv_partial`; before the repairs F21 / F22 it was false on the code, witnesses
+`silent_replace`, `update_id_merges`). -/
 theorem messages_exact_partial (probe : List Label) (s : State) (op : Op) (h : Inv s)
     (hc : classify s op = .ok) :
     specStep (obs probe s) op (obs probe (step s op).state) (step s op).msgs (step s op).err = true :=
@@ -92,31 +108,56 @@ example :
     let s := run (init []) [.register, .addArray 1 [3] 10, .updateFrom ⟨0, [(1, 20)], [2, 3], none⟩]
     specInv (obs [1] s) = true ∧ s.pix.length = 2 ∧ s.shape = [2, 3] := by decide
 
-/-! ## Known findings: the constructs outside the hypothesis that break the property -/
+/-- F20–F22 (fixed): in one history, removing a pixel id, adding an array onto a pixel id and
+`update_id` onto an id in use are refused and change nothing; adding an array onto an id that names
+an array replaces it and announces exactly that. -/
+example :
+    let s := run (init []) [.register, .addArray 1 [3] 10, .addArray 2 [3] 20]
+    cids s.comps = [1, 0, 2] ∧ s.pix = [1] ∧
+    (step s (.remove 1)).err = some .value ∧ (step s (.remove 1)).state = s ∧
+    (step s (.addArrayAt 1 [3] 30)).err = some .value ∧
+    (step s (.updateId 0 2)).err = some .value ∧ (step s (.updateId 0 2)).state = s ∧
+    (step s (.addArrayAt 0 [3] 30)).msgs = [.numerical (some [0])] ∧
+    cids (step s (.addArrayAt 0 [3] 30)).state.comps = [1, 0, 2] := by decide
 
-/-- F20 (known): `remove_component` on a pixel id leaves it listed in `pixel_component_ids` although
-it is no longer a component — the invariant fails on the observation. -/
+/-! ## Witnesses of the behaviour before the repairs F20–F22 (`stepUnrepaired`): each violates the
+Spec, and the repaired `step` satisfies it on the same input -/
+
+/-- F20 (fixed): `remove_component` on a pixel id used to leave it listed in `pixel_component_ids`
+although it was no longer a component — the invariant failed on the observation. The repaired call
+is refused and changes nothing. -/
 theorem remove_coordinate_breaks :
     let s := run (init []) [.addArray 1 [3] 10]
-    s.pix = [1] ∧ classify s (.remove 1) = .removeCoordinate ∧
-    specInv (obs [] (step s (.remove 1)).state) = false := by decide
+    s.pix = [1] ∧ classify s (.remove 1) = .ok ∧
+    specInv (obs [] (stepUnrepaired s (.remove 1)).state) = false ∧
+    (step s (.remove 1)).err = some .value ∧
+    specInv (obs [] (step s (.remove 1)).state) = true := by decide
 
-/-- F21 (known): `add_component` with an id that is already a key replaces the stored array and
-announces nothing: `specStep` rejects the call (with a hub). -/
+/-- F21 (fixed): `add_component` with an id that is already a key used to replace the stored array
+and announce nothing: `specStep` rejects that (with a hub). The repaired call announces
+`NumericalDataChanged([id])` and `specStep` holds. -/
 theorem silent_replace :
     let s := run (init []) [.register, .addArray 1 [3] 10]
-    classify s (.addArrayAt 0 [3] 20) = .addExistingId ∧
-    (step s (.addArrayAt 0 [3] 20)).msgs = [] ∧
-    specStep (obs [] s) (.addArrayAt 0 [3] 20) (obs [] (step s (.addArrayAt 0 [3] 20)).state)
-      (step s (.addArrayAt 0 [3] 20)).msgs (step s (.addArrayAt 0 [3] 20)).err = false := by decide
+    let op := Op.addArrayAt 0 [3] 20
+    classify s op = .ok ∧
+    (stepUnrepaired s op).msgs = [] ∧
+    (stepUnrepaired s op).state = (step s op).state ∧
+    specStep (obs [] s) op (obs [] (stepUnrepaired s op).state) (stepUnrepaired s op).msgs
+      (stepUnrepaired s op).err = false ∧
+    (step s op).msgs = [.numerical (some [0])] ∧
+    specStep (obs [] s) op (obs [] (step s op).state) (step s op).msgs (step s op).err = true := by decide
 
-/-- F22 (known): `update_id(old, new)` with `new` already a component merges the two dictionary keys:
-one component disappears, announced only as a replacement that the replay cannot apply. -/
+/-- F22 (fixed): `update_id(old, new)` with `new` already a component used to merge the two
+dictionary keys: one component disappeared, announced only as a replacement that the replay cannot
+apply. The repaired call is refused and changes nothing. -/
 theorem update_id_merges :
     let s := run (init []) [.register, .addArray 1 [3] 10, .addArray 2 [3] 20]
-    cids s.comps = [1, 0, 2] ∧ classify s (.updateId 0 2) = .updateIdOntoUsed ∧
-    cids (step s (.updateId 0 2)).state.comps = [1, 2] ∧
-    specStep (obs [] s) (.updateId 0 2) (obs [] (step s (.updateId 0 2)).state)
-      (step s (.updateId 0 2)).msgs (step s (.updateId 0 2)).err = false := by decide
+    let op := Op.updateId 0 2
+    cids s.comps = [1, 0, 2] ∧ classify s op = .ok ∧
+    cids (stepUnrepaired s op).state.comps = [1, 2] ∧
+    specStep (obs [] s) op (obs [] (stepUnrepaired s op).state) (stepUnrepaired s op).msgs
+      (stepUnrepaired s op).err = false ∧
+    (step s op).err = some .value ∧
+    specStep (obs [] s) op (obs [] (step s op).state) (step s op).msgs (step s op).err = true := by decide
 
 end GlueVerif.C17
